@@ -124,11 +124,8 @@ def stepChain (ins impl : List String) : Option String := do
     -- the authentication clause of the spec speaks about routes of the program;
     -- on a free-standing chain only the method/content-type clause applies
     let spec : Option String :=
-      match declared, implObs with
-      | some d, .resp .ran =>
-        if stateChanging d && !(req.method == d && jsonOrEmpty req)
-        then some "C11.state-change-wrong-method-or-ctype" else none
-      | _, _ => none
+      if implObs == .resp .ran && badStateChange req declared
+      then some "C11.state-change-wrong-method-or-ctype" else none
     pure (verdict (m == implObs) spec (obsName m))
   | _, _ => none
 
@@ -148,8 +145,14 @@ def stepTable (ins impl : List String) : Option String := do
   | [p], [v] =>
     let pat ← hexDecode p
     let i ← parseBool v
-    let m := (lookupRoute Gen.routes pat).isSome
-    pure (verdict (m == i) none (if m then "in-table" else "not-in-table"))
+    let r := lookupRoute Gen.routes pat
+    let m := r.isSome
+    -- a pattern that is registered on the real mux and whose extracted chain does
+    -- not meet the per-route obligation: names the route that lost its gate
+    let spec := match r with
+      | some r => if i && !routeOK r then some "C11.route-not-gated" else none
+      | none => none
+    pure (verdict (m == i) spec (if m then "in-table" else "not-in-table"))
   | _, _ => none
 
 def step (_ : Unit) (line : String) : Unit × String :=
